@@ -793,6 +793,66 @@ theorem eval_res_mono (cfg : Cfg) : ∀ (fuel : Nat) (p : SProg) (π : Path) (x 
               rw [← h.1]; exact fun _ hx => hx
 
 
+/-! ### fuel: a run that did not run out of fuel is unchanged by more fuel -/
+
+theorem eval_fuel_mono (cfg : Cfg) : ∀ (fuel : Nat) (p : SProg) (π : Path) (x : Int) (l : Local) (s : Store),
+    (eval cfg fuel p π x l s).1 ≠ .error .fuel → eval cfg (fuel + 1) p π x l s = eval cfg fuel p π x l s := by
+  intro fuel
+  induction fuel with
+  | zero => intro p π x l s h; simp [eval] at h
+  | succ fuel ih =>
+    intro p π x l s h
+    cases p with
+    | seq a b =>
+      simp only [eval] at h
+      rw [eval, eval]
+      simp only
+      cases ha : eval cfg fuel a π x l s with
+      | mk res s1 =>
+        rw [ha] at h
+        have hane : (eval cfg fuel a π x l s).1 ≠ .error .fuel := by
+          rw [ha]
+          cases res with
+          | error e => simpa using h
+          | ok l1 => simp
+        rw [ih a π x l s hane, ha]
+        cases res with
+        | error e => rfl
+        | ok l1 =>
+          simp only at h ⊢
+          exact ih b π x l1 s1 h
+    | call slot a =>
+      simp only [eval] at h
+      rw [eval, eval]
+      simp only
+      cases hk : l.kids[slot]? with
+      | none => rfl
+      | some k =>
+        simp only [hk] at h ⊢
+        cases he : evalE x l.env a with
+        | error err => rfl
+        | ok av =>
+          simp only [he] at h ⊢
+          cases hb : eval cfg fuel k.body (π ++ [k.name]) av {} s with
+          | mk res s1 =>
+            rw [hb] at h
+            have hbne : (eval cfg fuel k.body (π ++ [k.name]) av {} s).1 ≠ .error .fuel := by
+              rw [hb]
+              cases res with
+              | error e => simpa using h
+              | ok l1 => simp
+            rw [ih k.body (π ++ [k.name]) av {} s hbne, hb]
+    | skip => rw [eval, eval]
+    | bind e => rw [eval, eval]
+    | ret e => rw [eval, eval]
+    | param n shape init => rw [eval, eval]
+    | var col n shape init => rw [eval, eval]
+    | get col n => rw [eval, eval]
+    | put col n e => rw [eval, eval]
+    | sow col n e => rw [eval, eval]
+    | perturb col n e => rw [eval, eval]
+    | child cls name body => rw [eval, eval]
+
 /-! ### no variable is ever dropped -/
 
 def KeysKept (_ : Path) (s s' : Store) : Prop :=
